@@ -174,6 +174,30 @@ pub fn run(tier: Tier) -> ! {
             }
         }
     });
+    // window sizes around the u8 midpoint and maximum (2*window does not fit a u8 from 128 on)
+    {
+        let mut jobs = vec![];
+        for &w in &[127u8, 128, 129, 200, 255] {
+            for &n in &[1u8, 2, 3, 6] {
+                for which in 0..2 {
+                    let cfg = if which == 0 { Config { charw: w, charn: n, typew: 1, typen: 1, dict: vec![], bucket: 1, solver: 1 } } else { Config { charw: 1, charn: 1, typew: w, typen: n, dict: vec!["ab".into()], bucket: 2, solver: 1 } };
+                    for text in ["ab", "aba1", "あab1ab"] {
+                        let t: Vec<char> = text.chars().collect();
+                        let labels: Vec<u8> = (0..t.len() - 1).map(|i| (i % 3) as u8).collect();
+                        jobs.push((cfg.clone(), vec![(t, labels)]));
+                    }
+                }
+            }
+        }
+        chk.set("large_window_cases", json!(jobs.len()));
+        jobs.par_iter().for_each(|(cfg, sents)| {
+            chk.eval(1);
+            chk.nontrivial(1);
+            if let Some((k, what)) = check_case(cfg, sents) {
+                chk.violation(sig(&k, cfg, sents), what, json!({"cfg": cfg, "sentences": sents.iter().map(|(t, l)| (gen::s(t), l.clone())).collect::<Vec<_>>()}));
+            }
+        });
+    }
     // long dictionary words (lengths around the u8 limit) with small and large buckets
     {
         let long = |n: usize| "a".repeat(n);
